@@ -53,10 +53,10 @@ func modelFindAllStringSubmatch(e *Exec, c *frame, fn *ssa.Function, a []Value) 
 	}
 	s := a[1].(Slice)
 	limit := a[2].(sym.Sc)
-	if !limit.K || limit.Signed() >= 0 {
-		e.unsupported("FindAllStringSubmatch with n >= 0")
+	if !limit.K {
+		e.unsupported("FindAllStringSubmatch with a symbolic match limit")
 	}
-	found := e.reFindAll(rc.root, rc.ncap, s)
+	found := e.reFindAll(rc.root, rc.ncap, s, int(limit.Signed()))
 	if len(found) == 0 {
 		return Slice{Len: i64zero, Cap: i64zero}
 	}
